@@ -52,12 +52,15 @@ type DrvSession struct {
 	// last write; "held" = additionally the echo is withheld until the reply is sent, so that the read
 	// that completes the echo carries the first bytes of the reply (up to the reply's first cut / the
 	// segmentation's choice)
-	EchoJoin    string     `json:"echo_join,omitempty"`
-	Seg         devsim.Seg `json:"seg"`
-	ReadDelayUS int        `json:"read_delay_us"`
-	ReadSize    int        `json:"read_size"`
-	Replies     []Reply    `json:"replies"`
-	Note        string     `json:"note,omitempty"`
+	EchoJoin string `json:"echo_join,omitempty"`
+	// request-shaping driver options
+	ExcludeHeader bool       `json:"exclude_header,omitempty"` // options.WithNetconfExcludeHeader
+	SelfClosing   bool       `json:"self_closing,omitempty"`   // options.WithNetconfForceSelfClosingTags
+	Seg           devsim.Seg `json:"seg"`
+	ReadDelayUS   int        `json:"read_delay_us"`
+	ReadSize      int        `json:"read_size"`
+	Replies       []Reply    `json:"replies"`
+	Note          string     `json:"note,omitempty"`
 }
 
 const firstMsgID = 101
@@ -212,6 +215,8 @@ func GenDrvSession(r *rand.Rand, big bool) DrvSession {
 	if s.Echo {
 		s.EchoJoin = []string{"", "nomark", "held", "held"}[r.Intn(4)]
 	}
+	s.ExcludeHeader = r.Intn(3) == 0
+	s.SelfClosing = r.Intn(3) == 0
 	s.ReadDelayUS = []int{50, 250}[r.Intn(2)]
 	s.ReadSize = []int{7, 64, 8192, 65535}[r.Intn(4)]
 	mode := []string{"fixed", "whole", "geom", "mix", "mix"}[r.Intn(5)]
@@ -372,6 +377,41 @@ func (j *joinDev) Input(c *devsim.Conn, b []byte) {
 	}
 }
 
+// ReqOptSessions is the full factorial of the request-shaping driver options (exclude header, force
+// self-closing tags, preferred version) x NETCONF version x echo mode (off, marked, nomark, held),
+// three calls (get, rpc, get-config) each.
+func ReqOptSessions() []DrvSession {
+	var out []DrvSession
+	for _, v := range []string{"1.0", "1.1"} {
+		for _, xh := range []bool{false, true} {
+			for _, sc := range []bool{false, true} {
+				for _, caps := range []string{"only", "both"} {
+					for ei, em := range []string{"off", "", "nomark", "held"} {
+						s := DrvSession{Family: "reqopts", Version: v, Caps: caps, Echo: em != "off", ExcludeHeader: xh, SelfClosing: sc,
+							Seg: devsim.Seg{Mode: []string{"whole", "fixed", "mix"}[(ei+len(out))%3], Size: 16, Seed: int64(len(out) + 1)}, ReadDelayUS: 250, ReadSize: 65535}
+						if s.Echo {
+							s.EchoJoin = em
+						}
+						for i, api := range []string{"get", "rpc", "getconfig"} {
+							p := Decl + string(ncsim.Reply(firstMsgID+i, fmt.Sprintf("<data><n>%d</n>\n <t>é # 12</t></data>", i)))
+							rp := Reply{API: api, Payload: p, Variant: "none", LFAfter: i%2 == 0}
+							if v == "1.1" {
+								rp.Mode, rp.Sizes = "explicit", ncwire.Partition(len(p), []int{40 + i, 90})
+							}
+							if em == "held" {
+								rp.Cuts = []int{5 + 20*i}
+							}
+							s.Replies = append(s.Replies, rp)
+						}
+						out = append(out, s)
+					}
+				}
+			}
+		}
+	}
+	return out
+}
+
 // EchoWalkSessions is the dedicated sub-family that walks k over every position of one framed,
 // whitespace-rich reply: the read that completes the echo of the request ends after k bytes of the
 // reply (k = len: the whole reply rides with the echo).
@@ -473,6 +513,12 @@ func RunDrv(s DrvSession) mon.Result {
 	if s.Caps == "both" {
 		opts = append(opts, options.WithNetconfPreferredVersion(s.Version))
 	}
+	if s.ExcludeHeader {
+		opts = append(opts, options.WithNetconfExcludeHeader())
+	}
+	if s.SelfClosing {
+		opts = append(opts, options.WithNetconfForceSelfClosingTags())
+	}
 	d, err := netconf.NewDriver("dev", opts...)
 	if err != nil {
 		return mon.Result{Verdict: mon.Violated, Key: "c02/driver-new-failed", Detail: err.Error()}
@@ -526,7 +572,7 @@ func RunDrv(s DrvSession) mon.Result {
 		class := inputClass(s, i, sp, log)
 		symptom := ""
 		bad := func(key, f string, a ...interface{}) mon.Result {
-			if class != "" {
+			if class != "" && !strings.HasPrefix(key, "c02/failed-unset") && !strings.HasPrefix(key, "c02/error-message") {
 				// the predicted classes come with a predicted symptom; anything else is not folded into them
 				pred := "failed-with-empty-result"
 				if strings.HasPrefix(class, "c02/xml-declaration-kept") {
@@ -600,6 +646,7 @@ func RunDrv(s DrvSession) mon.Result {
 		if carries {
 			obs["driver_replies_with_rpc_error"]++
 		}
+		errObs(obs, tags, []byte(rp.Payload), rp.Variant, "driver_")
 		obs["driver_chunks"] += int64(len(rp.Sizes))
 		hdr, term := rp.framingSpans(s.Version)
 		for _, e := range log {
@@ -649,7 +696,7 @@ func RunDrv(s DrvSession) mon.Result {
 			}
 		}
 		tags["api="+rp.API] = true
-		tags["variant="+rp.Variant] = true
+		tags["variant="+variantTag(rp.Variant)] = true
 		if rp.Mode != "" {
 			tags["chunking="+rp.Mode] = true
 		}
@@ -659,6 +706,17 @@ func RunDrv(s DrvSession) mon.Result {
 	tags[fmt.Sprintf("echo=%v", s.Echo)] = true
 	tags[fmt.Sprintf("readsize=%d", s.ReadSize)] = true
 	tags["caps="+s.Caps] = true
+	echoMode := "off"
+	if s.Echo {
+		echoMode = map[string]string{"": "marked", "nomark": "nomark", "held": "held"}[s.EchoJoin]
+	}
+	tags[fmt.Sprintf("reqopts: exclude-header=%v self-closing=%v preferred-version=%v echo=%s", s.ExcludeHeader, s.SelfClosing, s.Caps == "both", echoMode)] = true
+	if s.ExcludeHeader && s.Echo {
+		obs["sessions_exclude_header_on_echoing_transport"]++
+	}
+	if s.SelfClosing && s.Echo {
+		obs["sessions_self_closing_tags_on_echoing_transport"]++
+	}
 	tags["family="+s.Family] = true
 	tl := make([]string, 0, len(tags))
 	for t := range tags {
